@@ -130,10 +130,12 @@ const (
 	opRangeDel
 	opFresh
 	opAlias
+	opRangeIns
+	opRangeNest
 	nOps
 )
 
-var opNames = []string{"put", "get", "get1", "del", "len", "range", "rangedel", "fresh", "alias"}
+var opNames = []string{"put", "get", "get1", "del", "len", "range", "rangedel", "fresh", "alias", "range-with-insert", "nested-range"}
 
 type op struct {
 	kind, slot, key, val int
@@ -216,6 +218,11 @@ func genHistory(t *tape.Tape, tier string) ([]op, int) {
 				}
 			case kd < 93:
 				o.kind = opFresh
+				if val%3 == 0 {
+					o.kind = opRangeNest
+				} else if val%3 == 1 && withRangeDel {
+					o.kind = opRangeIns
+				}
 			case kd < 95:
 				o.kind = opAlias
 			default:
@@ -400,6 +407,76 @@ func (e *Engine) execute(d *driver, ops []op, pool int, mode allocsim.Mode, t *t
 				}
 			}
 			res.Probes["range_with_delete"]++
+		case opRangeNest:
+			if len(m) > 60 {
+				break // quadratic
+			}
+			r, oc := call("rngnest", uint64(o.slot))
+			if oc != nil {
+				return oc, host, ""
+			}
+			var so int64
+			for k := range m {
+				so += int64(k + 1)
+			}
+			if exp := so*1000003 + so*so; int64(r) != exp {
+				return &outcome{"range_mismatch", fmt.Sprintf("op %d nested range over slot %d: checksum %d, expected %d (each of the %d keys must be visited once by the outer and once per outer step by the inner loop)", i, o.slot, int64(r), exp, len(m)), name}, host, ""
+			}
+			res.Probes["nested_range_walks"]++
+		case opRangeIns:
+			mod := 2 + o.val%3
+			rem := o.key % mod
+			shift := 1 + o.val%7
+			before := map[int]bool{}
+			for k := range m {
+				before[k] = true
+			}
+			cnt, oc := call("rngins", uint64(o.slot), uint64(mod), uint64(rem), uint64(shift), uint64(o.val))
+			if oc != nil {
+				return oc, host, ""
+			}
+			dup, _ := call("rget", 3)
+			bad, _ := call("rget", 4)
+			if int64(dup) != 0 || int64(bad) != 0 {
+				return &outcome{"range_mismatch", fmt.Sprintf("op %d range-with-insert(slot %d): %d key(s) visited twice, %d visited key(s) never inserted", i, o.slot, int64(dup), int64(bad)), name}, host, ""
+			}
+			// keys present at the start must be visited exactly once; keys inserted while
+			// walking may or may not be visited (at most once, checked by dup)
+			for k := range before {
+				sn, _ := call("seenAt", uint64(k))
+				if sn != 1 {
+					return &outcome{"range_mismatch", fmt.Sprintf("op %d range-with-insert(slot %d): key %d, present when the loop started, was visited %d times", i, o.slot, k, sn), name}, host, ""
+				}
+			}
+			if int(int32(cnt)) < len(before) {
+				return &outcome{"range_mismatch", fmt.Sprintf("op %d range-with-insert(slot %d): visited %d keys, %d were present at the start", i, o.slot, int32(cnt), len(before)), name}, host, ""
+			}
+			// replay the inserts on the model: the Wa side inserted for the first 8 visited keys
+			// satisfying the condition, in visiting order - which the model cannot know; read the map back instead
+			ln, oc := call("length", uint64(o.slot))
+			if oc != nil {
+				return oc, host, ""
+			}
+			// resynchronise the model from the implementation for the keys this op may have touched
+			for k := 0; k < pool+8 && k < poolMax; k++ {
+				r, _ := call("get", uint64(o.slot), uint64(k))
+				ck2 := canon(kk, k)
+				if int64(r) == -1 {
+					if _, had := m[ck2]; had && !before[ck2] {
+						delete(m, ck2)
+					}
+					continue
+				}
+				if !before[ck2] {
+					m[ck2] = o.val
+				} else if int64(r) != hval(vk, m[ck2]) {
+					m[ck2] = o.val // overwritten while walking
+				}
+			}
+			if int(int32(ln)) != len(m) {
+				return &outcome{"len_mismatch", fmt.Sprintf("op %d after range-with-insert(slot %d): len %d, %d distinct keys found by lookup", i, o.slot, int32(ln), len(m)), name}, host, ""
+			}
+			res.Probes["range_with_insert"]++
 		case opFresh:
 			if _, oc := call("fresh", uint64(o.slot)); oc != nil {
 				return oc, host, ""
